@@ -4,8 +4,10 @@ From L0 Require Import Types.
 From Gen Require Import Tables.
 From Pipe Require Import Model Base Terminal PropsC12.
 
-Definition gen_pfacts : pfacts := {| f_pending_recheck := fact_pending_arm_rechecks_closed; f_default_depth := fact_pipe_backpressure_count |}.
+Definition gen_pfacts : pfacts := {| f_pending_recheck := fact_pending_arm_rechecks_closed; f_default_depth := fact_pipe_backpressure_count;
+     f_poll_next_replaces_waker := fact_poll_next_stores_waker |}.
 
+Lemma cl_poll_next_replaces_waker : gen_pfacts.(f_poll_next_replaces_waker) = true. Proof. reflexivity. Qed.
 Lemma cl_default_depth_positive : 1 <= gen_pfacts.(f_default_depth). Proof. cbv. lia. Qed.
 Lemma cl_backpressure_check_and_register_atomic : fact_backpressure_check_and_register_atomic = true. Proof. reflexivity. Qed.
 Lemma cl_push_and_take_notify_atomic : fact_push_and_take_notify_atomic = true. Proof. reflexivity. Qed.
@@ -23,5 +25,14 @@ Theorem C12_terminal_complete_now : forall (f : nat -> nat) inputs ext tr s,
     Forall (fun a => a <> ACSetDepth 0) tr -> run gen_pfacts f (init gen_pfacts inputs ext) tr = Some s ->
     terminal gen_pfacts f s -> dropped s = false ->
     s.(delivered) = f <$> inputs /\ s.(got_end) = true /\ s.(cst) = CDone.
-Proof. intros f inputs ext tr s. exact (C12_terminal_complete gen_pfacts f inputs ext tr s cl_default_depth_positive). Qed.
+Proof. intros f inputs ext tr s. exact (C12_terminal_complete gen_pfacts f cl_poll_next_replaces_waker inputs ext tr s cl_default_depth_positive). Qed.
 Print Assumptions C12_terminal_complete_now.
+
+(* C12.2 on the code as it is now: a consumer that may poll at any time, each time with a fresh waker, is woken through the
+   waker of its most recent Pending poll *)
+Theorem C12_consumer_always_woken_now : forall (f : nat -> nat) inputs ext tr s,
+    run gen_pfacts f (init gen_pfacts inputs ext) tr = Some s ->
+    (s.(cst) = CPend \/ s.(cst) = CRun true) -> (s.(pending) <> [] \/ s.(closed) = true) ->
+    s.(notify) = None /\ (s.(cwoken) = true \/ cons_wake_inflight s = true).
+Proof. intros f. exact (C12_consumer_always_woken gen_pfacts f cl_poll_next_replaces_waker). Qed.
+Print Assumptions C12_consumer_always_woken_now.
